@@ -19,7 +19,8 @@ MTok(k) == [ty |-> k.ty, lit |-> k.lit, nl |-> k.nl, ok |-> k.ok]
 Slim(e) == [kind |-> e.kind, id |-> e.id, ph |-> e.ph, tok |-> e.tok, ctx |-> e.ctx, infn |-> e.infn]
 
 Judge ==
-  LET r   == Trace[t]
+  LET r0  == Trace[t]
+      r   == [r0 EXCEPT !.tree = Unflat(@), !.base = [@ EXCEPT !.tree = Unflat(@)]]
       f04 == C04_Failures(r)
       f16 == C16_Failures(r)
       es  == SelectSeq(r.inst, LAMBDA x : x \in {"e", "r"})
